@@ -43,7 +43,8 @@ fn v(rule: &str, call: &str, detail: &str, msg: String, case: &J) -> Violation {
     Violation::new("C01", rule, call, detail, msg, case.clone())
 }
 
-pub fn scenario(seed: u64, i: u64, rep: &mut Report) {
+pub fn scenario(prop: &str, seed: u64, i: u64, rep: &mut Report) {
+    let c02 = prop == "C02";
     let mut rng = Rng::from_parts(&[seed, i, 0x4_0000_0000]);
     let spc = *rng.pick(&[64u32, 128]);
     let cb = spc as u64 * 512;
@@ -73,6 +74,10 @@ pub fn scenario(seed: u64, i: u64, rep: &mut Report) {
         let writable = mode != Mode::ReadOnly;
         let mut off: u64 = if writable { model.len } else { 0 };
         let nops = 12 + rng.usize_below(25);
+        let run_ops = |model: &mut Sparse, off: &mut u64, rng: &mut Rng, rep: &mut Report, trace: &mut Vec<String>| -> Result<(), String> {
+        let off_out = off;
+        let mut off: u64 = *off_out;
+        let r = (|| -> Result<(), String> {
         for opi in 0..nops {
             let fl = *rng.pick(&[Fl::Raw, Fl::Wrap, Fl::Io]);
             rep.evaluations += 1;
@@ -82,7 +87,7 @@ pub fn scenario(seed: u64, i: u64, rep: &mut Report) {
             };
             match rng.below(10) {
                 0 | 1 => {
-                    let to = if rng.chance(1, 6) { model.len + 1 + rng.below(5) } else { near(&mut rng, model.len) };
+                    let to = if rng.chance(1, 6) { model.len + 1 + rng.below(5) } else { near(&mut *rng, model.len) };
                     if to > MAX {
                         continue;
                     }
@@ -121,7 +126,7 @@ pub fn scenario(seed: u64, i: u64, rep: &mut Report) {
                 4 => {
                     // the embedded-io seek, 64-bit positions
                     let to = match rng.below(3) {
-                        0 => SeekTo::Start(near(&mut rng, model.len)),
+                        0 => SeekTo::Start(near(&mut *rng, model.len)),
                         1 => SeekTo::End(-(*rng.pick(&[0i64, 1, 512, 70000]))),
                         _ => SeekTo::Current(*rng.pick(&[0i64, -1, 1, -70000])),
                     };
@@ -172,6 +177,30 @@ pub fn scenario(seed: u64, i: u64, rep: &mut Report) {
                         return Err(format!("op {}: write of {} bytes at offset {} moved the offset by {}", opi, len, off, accepted));
                     }
                     let acc = accepted as usize;
+                    if c02 {
+                        // deciding C02: the model holds what the call CLAIMED to have taken
+                        let claimed = match &r {
+                            Ok(n) => (*n).min(len),
+                            Err(_) => acc,
+                        };
+                        for k in 0..claimed {
+                            if off + (k as u64) < MAX {
+                                model.over.insert(off + k as u64, data[k]);
+                            }
+                        }
+                        let end = (off + claimed as u64).min(MAX);
+                        model.len = model.len.max(end);
+                        let cbn = ((model.len + cb - 1) / cb) as usize;
+                        if cbn > model.chain.len() {
+                            model.chain.resize(cbn, 0);
+                        }
+                        off = new_off;
+                        rep.count("huge_file_writes", 1);
+                        if claimed != acc {
+                            return Err("foreign: write claimed more than it took".into());
+                        }
+                        continue;
+                    }
                     match r {
                         // a count is only truthful if that many bytes were taken
                         Ok(n) if n == acc && (n == len || fl == Fl::Io) => {}
@@ -208,7 +237,53 @@ pub fn scenario(seed: u64, i: u64, rep: &mut Report) {
                 return Err(format!("op {}: library reports length {} offset {} eof {}, model length {} offset {} eof {}", opi, l, o, e, model.len, off, off == model.len));
             }
         }
+        Ok(())
+        })();
+        *off_out = off;
+        r
+        };
+        let r_ops = run_ops(&mut model, &mut off, &mut rng, rep, &mut trace);
+        if let Err(m) = r_ops {
+            if !c02 {
+                return Err(m);
+            }
+            // deciding C02: a length/offset/seek disagreement is C01's business; what was flushed
+            // must still be on the medium
+            rep.count("huge_file_histories_cut_short_by_another_propertys_violation", 1);
+        }
+        let lib_len = vm.length(Fl::Raw, fh).map_err(|e| format!("file_length {:?}", ek(&e)))? as u64;
         vm.close_file(Fl::Raw, fh).map_err(|e| format!("close_file {:?}", ek(&e)))?;
+        if c02 {
+            // ---- the medium, through the independent reader --------------------------------------
+            let img2 = m.disk.image();
+            let snap = crate::fatref::Snap::open(&img2, g.part_slot).map_err(|e| format!("C02: independent reader cannot open the volume after close: {:?}", e))?;
+            let w = snap.walk();
+            let Some(n) = w.nodes.iter().find(|n| n.path == "HUGE.BIN") else { return Err("C02: HUGE.BIN is gone from the medium after close".into()) };
+            if n.size as u64 != lib_len {
+                return Err(format!("C02: after close the medium records {} bytes for HUGE.BIN, the library reported {} when it was flushed", n.size, lib_len));
+            }
+            let upto = lib_len.min(model.len);
+            let start = upto.saturating_sub(3 * cb + 100_100);
+            let mut o = start;
+            while o < upto {
+                let ci = (o / cb) as usize;
+                let Some(&c) = n.chain.get(ci) else { return Err(format!("C02: the chain of HUGE.BIN on the medium has {} clusters, offset {} needs more", n.chain.len(), o)) };
+                let blk = snap.vol.cluster_blk(c) + ((o % cb) / 512) as u32;
+                let b = snap.src.get(blk);
+                let lim = (512 - (o % 512)).min(upto - o);
+                for k in 0..lim {
+                    let want = model.byte(o + k);
+                    if b[((o + k) % 512) as usize] != want {
+                        return Err(format!("C02: after close the medium holds {:#04x} at offset {} of HUGE.BIN, the flushed contents have {:#04x}", b[((o + k) % 512) as usize], o + k, want));
+                    }
+                }
+                o += lim;
+            }
+            rep.count("huge_file_media_confirmed", 1);
+            let _ = vm.close_dir(Fl::Raw, root);
+            let _ = vm.close_volume(Fl::Raw, vol);
+            return Ok(());
+        }
         // re-open and read the tail back
         let fh = vm.open_file(Fl::Raw, root, Nm::Str("HUGE.BIN"), Mode::ReadOnly).map_err(|e| format!("re-open {:?}", ek(&e)))?;
         let l = vm.length(Fl::Raw, fh).map_err(|e| format!("file_length {:?}", ek(&e)))? as u64;
@@ -246,6 +321,13 @@ pub fn scenario(seed: u64, i: u64, rep: &mut Report) {
         Ok(Ok(())) => {
             rep.count("huge_file_scenarios", 1);
             rep.distinct.insert(crate::prng::mix(&[0x4_0000_0000, seed, i]));
+        }
+        Ok(Err(msg)) if c02 => {
+            if msg.starts_with("C02:") {
+                rep.violate(Violation::new("C02", if msg.contains("holds") || msg.contains("chain of") { "C02.bytes" } else if msg.contains("records") { "C02.size" } else { "C02.missing" }, "close_file", "file near the 4 GiB length limit", msg, case.clone()));
+            } else {
+                rep.count("huge_file_scenarios_not_completed", 1);
+            }
         }
         Ok(Err(msg)) => {
             let (rule, detail) = if msg.contains("reported") && msg.contains("accepted") {
